@@ -4,10 +4,15 @@ Every sub-check runs the real quara code (quara/objects/effective_lindbladian.py
 (Exec/C18_ops.v) on the same generated inputs, compares them, and evaluates the property's own predicates on the
 implementation's outputs (direct GKSL evaluation, round trips, sums of parts, verdict margins, projection certificates).
 
-Root-cause attribution: when a property predicate fails, the check re-evaluates it with ONE suspected routine's output
-replaced by the corrected formula; if that repairs the predicate the violation is reported under that routine's
-(site, signature), otherwise under the call site where it was observed.  So a different defect in the same area is still
-reported separately."""
+The model is the code AS REPAIRED by fixes/c18-calc-j-mat-identity-component.diff and fixes/c18-jump-operators-cdagger-c.diff.
+Attribution of a re-appearing defect: when the implementation disagrees with the model / a property predicate fails, the
+check looks whether the implementation's output coincides with the model of the routine AS CODED BEFORE THE FIX
+(calc_j_mat_prefix / jump_d_prefix); if so the violation carries that defect's own (site, signature), otherwise the generic
+one of the call site where it was observed.  So a different defect in the same area is still reported separately.
+
+Out of scope (property C18 does not speak about variable vectors): calc_proj_eq_constraint_with_var /
+calc_proj_ineq_constraint_with_var (static methods of Gate that EffectiveLindbladian merely inherits), generate_from_var,
+convert_var_to_effective_lindbladian / to_var.  They are not checked here."""
 import math
 from fractions import Fraction
 import numpy as np
@@ -19,6 +24,7 @@ ATOL0 = 1e-13            # quara's Settings default
 
 # ------------------------------------------------------------------------------------------------ systems
 _SYS = {}
+_TIMES = {}
 
 
 def _dense(b):
@@ -200,7 +206,7 @@ def from_cb(S, L):
 
 
 def jmat_fixed_np(S, L_cb):
-    """corrected calc_j_mat: all basis elements, halving on the identity element"""
+    """independent numpy evaluation of calc_j_mat as repaired: all basis elements, halving on the identity element"""
     d = S["d"]; I = np.eye(d); J = np.zeros((d, d), dtype=complex)
     for a, Ba in enumerate(S["B"]):
         t = np.trace(L_cb @ (np.kron(Ba, I) + np.kron(I, Ba.conj())))
@@ -373,17 +379,26 @@ def chk_extract(ctx, case):
     tol = tolf(hs)
     lab = "%s/%s/%s" % (case["sys"], case["src"], (case.get("K") or {}).get("kind", "-"))
     ctx.count("extract", key=repr(case), nontrivial=True, label=lab)
-    # ---- faithful model of the three extraction routines
+    # ---- model of the three extraction routines (calc_j_mat: as repaired)
     h_i, j_i, k_i = L.calc_h_mat(), L.calc_j_mat(), L.calc_k_mat()
+    j_mod = cmatv(m.call("c18.extract", [d, 1], S["bq"] + rflat(hs)), d, d)
+    j_pre = cmatv(m.call("c18.extract", [d, 2], S["bq"] + rflat(hs)), d, d)       # as coded before fix c18-calc-j-mat-identity-component
+    # the recorded defect is back iff the implementation coincides with the pre-fix routine where that differs from the model
+    old_defect = md(j_i, j_mod) > tol and md(j_i, j_pre) <= tol
+
+    def jviol(what):
+        if old_defect:
+            ctx.violation("extract", *JSITE, what + " — calc_j_mat coincides with the routine as coded before fix c18-calc-j-mat-identity-component (loop over basis[1:]: identity component dropped, first traceless coefficient halved)", case)
+        return old_defect
     for which, name, val, r in [(0, "calc_h_mat", h_i, d), (1, "calc_j_mat", j_i, d), (3, "calc_k_mat", k_i, n - 1)]:
-        mod = cmatv(m.call("c18.extract", [d, which], S["bq"] + rflat(hs)), r, r)
+        mod = j_mod if which == 1 else cmatv(m.call("c18.extract", [d, which], S["bq"] + rflat(hs)), r, r)
         if md(val, mod) > tol:
-            ctx.violation("extract", "EffectiveLindbladian." + name, "model-mismatch", "%s differs from the model of the code by %.3g" % (name, md(val, mod)), case)
+            if not (which == 1 and jviol("calc_j_mat differs from the model by %.3g" % md(val, mod))):
+                ctx.violation("extract", "EffectiveLindbladian." + name, "model-mismatch", "%s differs from the model by %.3g" % (name, md(val, mod)), case)
     L_cb = to_cb(S, hs)
-    j_fix = jmat_fixed_np(S, L_cb)
-    j_fix_m = cmatv(m.call("c18.extract", [d, 2], S["bq"] + rflat(hs)), d, d)
-    if md(j_fix, j_fix_m) > tol:
-        ctx.violation("extract", "harness.jmat_fixed_np", "oracle-mismatch", "numpy corrected j_mat and the model's calc_j_mat_fix differ", case)
+    j_np = jmat_fixed_np(S, L_cb)
+    if md(j_np, j_mod) > tol:
+        ctx.violation("extract", "harness.jmat_fixed_np", "oracle-mismatch", "numpy evaluation of calc_j_mat and the model's calc_j_mat differ", case)
     # ---- property: the extracted matrices are the ones the generator was built from
     if H is not None:
         Ht = H - np.trace(H) / d * np.eye(d)           # H is determined up to multiples of the identity
@@ -392,25 +407,24 @@ def chk_extract(ctx, case):
         if md(k_i, K) > tol:
             ctx.violation("extract", "EffectiveLindbladian.calc_k_mat", "not-the-dissipator-matrix", "extracted k differs from K by %.3g" % md(k_i, K), case)
         J_true = -0.5 * sum(K[a, b] * (S["B"][b + 1].conj().T @ S["B"][a + 1]) for a in range(n - 1) for b in range(n - 1)) if n > 1 else np.zeros((d, d))
-        if md(j_fix, J_true) > tol:
-            ctx.violation("extract", "harness.jmat_fixed_np", "oracle-mismatch", "corrected j_mat is not J(K)", case)
+        if md(j_mod, J_true) > tol:
+            ctx.violation("extract", "model.calc_j_mat", "oracle-mismatch", "model calc_j_mat is not J(K) (contradicts theorem C18_extract)", case)
         if md(j_i, J_true) > tol:
-            ctx.violation("extract", *JSITE, "calc_j_mat returns a matrix that differs from the anti-commutator matrix J = -1/2 sum K_ab B_b^dagger B_a by %.3g (identity component dropped, first traceless coefficient halved)" % md(j_i, J_true), case)
+            if not jviol("calc_j_mat returns a matrix that differs from the anti-commutator matrix J = -1/2 sum K_ab B_b^dagger B_a by %.3g" % md(j_i, J_true)):
+                ctx.violation("extract", "EffectiveLindbladian.calc_j_mat", "not-the-anticommutator-matrix", "extracted j differs from J(K) by %.3g" % md(j_i, J_true), case)
     # ---- property: extract-then-rebuild reproduces the generator
-    def rebuild(jm):
-        try:
-            return el.generate_hs_from_hjk(S["c_sys"], h_i, jm, k_i)
-        except ValueError as e:
-            return None
-    hs2 = rebuild(j_i)
+    try:
+        hs2 = el.generate_hs_from_hjk(S["c_sys"], h_i, j_i, k_i)
+    except ValueError as e:
+        hs2 = None
     ctx.count("extract", key=(repr(case), "rebuild"), nontrivial=True)
     if hs2 is None or md(hs2, hs) > 10 * tol:
-        hs3 = rebuild(j_fix)
-        if hs3 is not None and md(hs3, hs) <= 10 * tol:
-            ctx.violation("extract", *JSITE, "extract-then-rebuild changes the generator by %s; with the corrected calc_j_mat the round trip is exact" % ("%.3g" % md(hs2, hs) if hs2 is not None else "raising ValueError"), case)
-        else:
-            ctx.violation("extract", "effective_lindbladian.extract-rebuild", "value", "extract-then-rebuild is not the identity (error %s) even with the corrected j_mat" % ("%.3g" % md(hs3, hs) if hs3 is not None else "n/a"), case)
-    # ---- property: h + j + k parts = whole, d = j + k, both basis modes; and each part against the model of the code
+        what = "extract-then-rebuild changes the generator by %s" % ("%.3g" % md(hs2, hs) if hs2 is not None else "raising ValueError")
+        if not jviol(what):
+            ctx.violation("extract", "effective_lindbladian.extract-rebuild", "value", what, case)
+    # ---- property: h + j + k parts = whole, d = j + k, both basis modes; and each part against the model
+    allp = m.call("c18.parts_all", [d], S["bq"] + rflat(hs))           # h, j, k, d (comp basis), h, j, k, d, rebuilt (basis B)
+    allp = [cmatv(allp[q * 2 * n * n:(q + 1) * 2 * n * n], n, n) for q in range(9)]
     for herm, mb in [(0, "comp_basis"), (1, "hermitian_basis")]:
         whole = L_cb if herm == 0 else hs
         try:
@@ -419,29 +433,27 @@ def chk_extract(ctx, case):
             ctx.violation("extract", "EffectiveLindbladian.calc_*_part", "unexpected-raise", "calc_*_part(%s) raised %s" % (mb, str(e)[:80]), case)
             continue
         for which, nm in enumerate(["h", "j", "k", "d"]):
-            mod = cmatv(m.call("c18.parts", [d, which, 0, herm], S["bq"] + rflat(hs)), n, n)
+            mod = allp[4 * herm + which]
             if md(parts[which], mod) > 10 * tol:
-                ctx.violation("extract", "EffectiveLindbladian.calc_%s_part" % nm, "model-mismatch", "calc_%s_part(%s) differs from the model of the code by %.3g" % (nm, mb, md(parts[which], mod)), case)
+                if not (nm in ("j", "d") and jviol("calc_%s_part(%s) differs from the model by %.3g" % (nm, mb, md(parts[which], mod)))):
+                    ctx.violation("extract", "EffectiveLindbladian.calc_%s_part" % nm, "model-mismatch", "calc_%s_part(%s) differs from the model by %.3g" % (nm, mb, md(parts[which], mod)), case)
         ctx.count("extract", key=(repr(case), "sum", herm), nontrivial=True)
-        jp_fix = jpart_np(j_fix) if herm == 0 else from_cb(S, jpart_np(j_fix)).real
         e_sum = md(parts[0] + parts[1] + parts[2], whole)
         if e_sum > 10 * tol:
-            if md(parts[0] + jp_fix + parts[2], whole) <= 10 * tol:
-                ctx.violation("extract", *JSITE, "h_part + j_part + k_part differs from the generator by %.3g (%s); with the corrected calc_j_mat the parts sum to the whole" % (e_sum, mb), case)
-            else:
-                ctx.violation("extract", "EffectiveLindbladian.calc_*_part", "parts-do-not-sum", "h+j+k parts differ from the generator by %.3g (%s), not explained by calc_j_mat" % (e_sum, mb), case)
+            if not jviol("h_part + j_part + k_part differs from the generator by %.3g (%s)" % (e_sum, mb)):
+                ctx.violation("extract", "EffectiveLindbladian.calc_*_part", "parts-do-not-sum", "h+j+k parts differ from the generator by %.3g (%s)" % (e_sum, mb), case)
         if md(parts[3], parts[1] + parts[2]) > 10 * tol:
             ctx.violation("extract", "EffectiveLindbladian.calc_d_part", "d-not-j-plus-k", "d_part != j_part + k_part (%s): %.3g" % (mb, md(parts[3], parts[1] + parts[2])), case)
-    # the model's rebuilt generator with the corrected routine is the input (ties theorem C18_extract_rebuild to this input)
-    mod = cmatv(m.call("c18.parts", [d, 4, 1, 1], S["bq"] + rflat(hs)), n, n)
+    # the model's rebuilt generator is the input (ties theorem C18_extract_rebuild to this input)
+    mod = allp[8]
     if md(mod, hs) > 10 * tol:
-        ctx.violation("extract", "model.rebuild_cb", "oracle-mismatch", "model rebuild with corrected calc_j_mat is not the identity: %.3g" % md(mod, hs), case)
+        ctx.violation("extract", "model.rebuild_cb", "oracle-mismatch", "model extract-then-rebuild is not the identity: %.3g" % md(mod, hs), case)
 
 
 def sub_extract(ctx):
     rng = ctx.rng
     cases = []
-    plan = [("1q", ctx.n(10, 60)), ("1q-rot", ctx.n(6, 40)), ("qutrit", ctx.n(6, 40)), ("2q", ctx.n(3, 25)), ("qutrit-rot", ctx.n(0, 20))]
+    plan = [("1q", ctx.n(10, 60)), ("1q-rot", ctx.n(6, 40)), ("qutrit", ctx.n(6, 40)), ("2q", ctx.n(2, 25)), ("qutrit-rot", ctx.n(0, 20))]
     for sysn, cnt in plan:
         S = get_sys(ctx, sysn); d, n = S["d"], S["n"]
         for i in range(cnt):
@@ -459,6 +471,9 @@ def sub_extract(ctx):
 
 
 # ================================================================================================ 3. jump operators
+JUMPSITE = ("effective_lindbladian.generate_j_part_cb_from_jump_operators", "uses-c-instead-of-cdagger-c")
+
+
 def chk_jump(ctx, case):
     from quara.objects import effective_lindbladian as el
     S = get_sys(ctx, case["sys"]); d, n = S["d"], S["n"]
@@ -476,16 +491,19 @@ def chk_jump(ctx, case):
             "k_gb": el.generate_k_part_gb_from_jump_operators(cs, basis), "d_gb": el.generate_d_part_gb_from_jump_operators(cs, basis)}
     Lobj = el.generate_effective_lindbladian_from_jump_operators(S["c_sys"], cs, is_physicality_required=False)
     tol = tolf(*impl.values())
-    # ---- faithful model (as coded)
-    for name, variant, herm in [("j_cb", 2, 0), ("k_cb", 3, 0), ("d_cb", 0, 0), ("j_gb", 2, 1), ("k_gb", 3, 1), ("d_gb", 0, 1)]:
-        mod = cmatv(m.call("c18.jump", [d, k, variant, herm], S["bq"] + cq), n, n)
-        if md(impl[name], mod) > tol:
-            ctx.violation("jump", "effective_lindbladian.generate_%s_part_%s_from_jump_operators" % (name[0], name[2:]), "model-mismatch",
-                          "%s differs from the model of the code by %.3g" % (name, md(impl[name], mod)), case)
-    if md(Lobj.hs, impl["d_gb"]) > tol:
-        ctx.violation("jump", "effective_lindbladian.generate_effective_lindbladian_from_jump_operators", "model-mismatch", "object hs differs from d_part_gb", case)
+    # the recorded defect (fix c18-jump-operators-cdagger-c) is back iff the j part coincides with the pre-fix routine
+    j_mod = cmatv(m.call("c18.jump", [d, k, 2, 0], S["bq"] + cq), n, n)
+    j_pre = cmatv(m.call("c18.jump", [d, k, 4, 0], S["bq"] + cq), n, n)
+    old_defect = md(impl["j_cb"], j_mod) > tol and md(impl["j_cb"], j_pre) <= tol
+    reported = []
+
+    def jviol(what):
+        if old_defect and not reported:
+            reported.append(1)
+            ctx.violation("jump", *JUMPSITE, what + " (first row of the generator %.3g: not trace preserving); the anti-commutator part coincides with the routine as coded before fix c18-jump-operators-cdagger-c: built from c, not c^dagger c" % float(np.abs(Lobj.hs[0]).max()), case)
+        return old_defect
     # ---- property: the generator acts as  sum_c  c rho c^dagger - 1/2 {c^dagger c, rho}
-    gk = cmatv(m.call("c18.jump", [d, k, 1, 0], S["bq"] + cq), n, n)          # model, GKSL form, comp basis
+    gk = cmatv(m.call("c18.jump", [d, k, 0, 0], S["bq"] + cq), n, n)          # model generator, comp basis
     bad = None
     for q, rint in enumerate(case["rhos"]):
         rho = state_of(rint) + (0.5j * m_of(rint) / 8.0 if q == 1 else 0)
@@ -494,23 +512,27 @@ def chk_jump(ctx, case):
         if md(v, want) > tolf(want):
             ctx.violation("jump", "harness.jump_np", "oracle-mismatch", "numpy and model GKSL evaluation differ", case)
         if md((gk @ rho.reshape(-1)).reshape(d, d), want) > tolf(want, gk):
-            ctx.violation("jump", "model.jump_d_gksl", "oracle-mismatch", "model GKSL superoperator does not act as the GKSL equation", case)
+            ctx.violation("jump", "model.jump_d", "oracle-mismatch", "model generator does not act as the GKSL equation (contradicts theorem C18_gksl_action_jump)", case)
         got = act_hs(S, Lobj.hs, rho)
         ctx.count("jump", key=(repr(case), "act", q), nontrivial=case["kind"] != "proj")
         if md(got, want) > tolf(want, Lobj.hs):
             bad = (q, md(got, want))
     if bad is not None:
-        # attribution: k part right and j part = -1/2 sum (c (x) I + I (x) conj c) instead of c^dagger c ?
-        k_ok = md(impl["k_cb"], sum(np.kron(c, c.conj()) for c in cs)) <= tol
-        I = np.eye(d)
-        j_right = -0.5 * sum(np.kron(c.conj().T @ c, I) + np.kron(I, (c.conj().T @ c).conj()) for c in cs)
-        repaired = from_cb(S, impl["k_cb"] + j_right)
-        ok2 = all(md(act_hs(S, repaired, state_of(r)), jump_np(cs, state_of(r))) <= tolf(repaired) for r in case["rhos"])
-        if k_ok and ok2:
-            ctx.violation("jump", "effective_lindbladian.generate_j_part_cb_from_jump_operators", "uses-c-instead-of-cdagger-c",
-                          "generator from jump operators deviates from the GKSL equation by %.3g (first row %.3g: not trace preserving); the anti-commutator part is built from c, not c^dagger c — with c^dagger c the action is exact" % (bad[1], float(np.abs(Lobj.hs[0]).max())), case)
-        else:
-            ctx.violation("jump", "effective_lindbladian.generate_effective_lindbladian_from_jump_operators", "gksl-action", "deviation %.3g from the GKSL equation, not explained by the j part" % bad[1], case)
+        if not jviol("generator from jump operators deviates from the GKSL equation by %.3g on test matrix %d" % (bad[1], bad[0])):
+            ctx.violation("jump", "effective_lindbladian.generate_effective_lindbladian_from_jump_operators", "gksl-action", "deviation %.3g from the GKSL equation on test matrix %d" % (bad[1], bad[0]), case)
+    # a generator built from jump operators is physical: first row zero (trace preserving)
+    if float(np.abs(Lobj.hs[0]).max()) > 1e-12 * (1 + float(np.abs(Lobj.hs).max())):
+        if not jviol("generator from jump operators is not trace preserving"):
+            ctx.violation("jump", "effective_lindbladian.generate_effective_lindbladian_from_jump_operators", "first-row-nonzero", "first row %.3g" % float(np.abs(Lobj.hs[0]).max()), case)
+    # ---- model of the six routines
+    for name, variant, herm in [("j_cb", 2, 0), ("k_cb", 3, 0), ("d_cb", 0, 0), ("j_gb", 2, 1), ("k_gb", 3, 1), ("d_gb", 0, 1)]:
+        mod = j_mod if name == "j_cb" else cmatv(m.call("c18.jump", [d, k, variant, herm], S["bq"] + cq), n, n)
+        if md(impl[name], mod) > tol:
+            if not (name[0] in "jd" and jviol("%s from jump operators differs from the model by %.3g" % (name, md(impl[name], mod)))):
+                ctx.violation("jump", "effective_lindbladian.generate_%s_part_%s_from_jump_operators" % (name[0], name[2:]), "model-mismatch",
+                              "%s differs from the model by %.3g" % (name, md(impl[name], mod)), case)
+    if md(Lobj.hs, impl["d_gb"]) > tol:
+        ctx.violation("jump", "effective_lindbladian.generate_effective_lindbladian_from_jump_operators", "model-mismatch", "object hs differs from d_part_gb", case)
 
 
 def sub_jump(ctx):
@@ -543,11 +565,25 @@ def chk_verdict(ctx, case):
     band = 1e-3 * atol + 3e-12 * (1.0 + float(np.abs(hs).max())) * n
     lo = atol - band; hi = atol + band
     impl = [bool(L.is_tp(atol)), bool(L.is_cp(atol)), bool(L.is_physical(atol, atol))]
-    if lo <= 0:
-        v_lo = None
+    at_ctor = ATOL0 + 3e-12 * (1 + float(np.abs(hs).max())) * n
+    need_ctor = case["atol"] == ATOL0 or case.get("ctor")
+    atols = ([lo] if lo > 0 else []) + [hi] + ([at_ctor] if need_ctor else [])
+    if ctx.quick and case["sys"] == "2q":
+        # quick tier, 2 qubits: the model's exact 30 x 30 PSD decisions on its own (long-mantissa) rational k matrix cost ~2.5 s each;
+        # here the model only extracts k (exactly), it is rounded to doubles (perturbation << band) and the same verdict is composed
+        # from the verified exact PSD decision of Core_ops.  The thorough tier runs the model's own verdict op on 2 qubits too.
+        Km = cmatv(m.call("c18.extract", [d, 3], S["bq"] + rflat(hs)), n - 1, n - 1)
+        rr = []
+        for at in atols:
+            tp = float(np.abs(hs[0]).max()) <= at
+            hm = float(np.abs(Km - Km.conj().T).max()) <= at
+            ps = bool(qcheck.herm_psd(ctx, (Km + Km.conj().T) / 2, at))
+            rr.append([int(tp), int(hm), int(ps), int(hm and ps), int(tp and hm and ps)])
     else:
-        r = m.call("c18.verdict", [d], [lo] + S["bq"] + rflat(hs)); v_lo = [bool(int(r[0])), bool(int(r[3])), bool(int(r[4]))]
-    r = m.call("c18.verdict", [d], [hi] + S["bq"] + rflat(hs)); v_hi = [bool(int(r[0])), bool(int(r[3])), bool(int(r[4]))]
+        rr = m.call("c18.verdicts", [d, len(atols)], atols + S["bq"] + rflat(hs))         # k matrix extracted once for all tolerances
+        rr = [rr[5 * q:5 * q + 5] for q in range(len(atols))]
+    v_lo = [bool(int(rr[0][0])), bool(int(rr[0][3])), bool(int(rr[0][4]))] if lo > 0 else None
+    r = rr[1 if lo > 0 else 0]; v_hi = [bool(int(r[0])), bool(int(r[3])), bool(int(r[4]))]
     names = ["is_tp", "is_cp", "is_physical"]
     for k in range(3):
         inband = v_lo is None or v_lo[k] != v_hi[k]
@@ -558,7 +594,10 @@ def chk_verdict(ctx, case):
                 names[k], atol, impl[k], v_hi[k], float(np.abs(hs[0]).max()), case["K"]["kind"], case["K"]["neg"] * case["scale"]), case)
     # physical <=> first row zero and K PSD, independently of the model: exact PSD decision on the K the code extracts
     Kc = L.calc_k_mat()
-    ps_hi = qcheck.herm_psd(ctx, Kc, atol + band); ps_lo = qcheck.herm_psd(ctx, Kc, atol - band) if atol > band else None
+    if ctx.quick and case["sys"] == "2q":       # two more exact 30 x 30 PSD decisions: thorough tier only
+        ps_hi = ps_lo = None
+    else:
+        ps_hi = qcheck.herm_psd(ctx, Kc, atol + band); ps_lo = qcheck.herm_psd(ctx, Kc, atol - band) if atol > band else None
     tp_hi = float(np.abs(hs[0]).max()) <= atol + band; tp_lo = float(np.abs(hs[0]).max()) <= atol - band
     if ps_lo is not None and ps_hi == ps_lo and tp_hi == tp_lo and qcheck.antiherm_norm(Kc) < atol * 0.5:
         want = tp_hi and ps_hi
@@ -567,7 +606,7 @@ def chk_verdict(ctx, case):
             ctx.violation("verdict", "EffectiveLindbladian.is_physical", "not-tp-and-kpsd", "is_physical = %s but (first row within atol) = %s and PSD(K + atol I) = %s" % (impl[2], tp_hi, ps_hi), case)
     # the constructor with physicality required raises exactly for the non-physical ones (default tolerance)
     if case["atol"] == ATOL0 or case.get("ctor"):
-        r = m.call("c18.verdict", [d], [ATOL0 + 3e-12 * (1 + float(np.abs(hs).max())) * n] + S["bq"] + rflat(hs)); phys_hi = bool(int(r[4]))
+        phys_hi = bool(int(rr[-1][4]))
         exact = case["K"]["neg"] * case["scale"] >= 1e-7 or abs(case["row"]) >= 1e-9      # clearly non-physical
         clearly = case["K"]["kind"] == "psd" and case["row"] == 0.0                         # clearly physical
         if exact or clearly:
@@ -607,7 +646,7 @@ def chk_proj_eq(ctx, case):
     keep = hs.copy()
     P = L.calc_proj_eq_constraint()
     ctx.count("proj_eq", key=repr(case), nontrivial=True, label=case["sys"])
-    mod = rmatv(m.call("c18.eqvar", [n, 0, 1], rflat(hs)), n, n)
+    mod = rmatv(m.call("c18.proj_eq", [n], rflat(hs)), n, n)
     site = "EffectiveLindbladian.calc_proj_eq_constraint"
     if not np.array_equal(P.hs, mod):
         ctx.violation("proj_eq", site, "model-mismatch", "projection differs from the model (must be bitwise: zero row, other rows copied)", case)
@@ -622,21 +661,6 @@ def chk_proj_eq(ctx, case):
     lhs = np.sum((hs - Z) ** 2); rhs = np.sum((hs - P.hs) ** 2) + np.sum((P.hs - Z) ** 2)
     if abs(lhs - rhs) > 1e-9 * (1 + lhs):
         ctx.violation("proj_eq", site, "not-nearest-point", "Pythagoras fails: %.6g vs %.6g" % (lhs, rhs), case)
-    # ---- the projection on VARIABLE vectors (inherited from Gate)
-    for on_eq in (True, False):
-        var = hs[1:].reshape(-1) if on_eq else hs.reshape(-1)
-        v0 = var.copy()
-        out = L.calc_proj_eq_constraint_with_var(S["c_sys"], var, on_para_eq_constraint=on_eq)
-        modv = np.array([float(x) for x in m.call("c18.eqvar", [n, 4, 1 if on_eq else 0], rflat(v0))])
-        want = np.array([float(x) for x in m.call("c18.eqvar", [n, 5, 1 if on_eq else 0], rflat(v0))])
-        sitev = "EffectiveLindbladian.calc_proj_eq_constraint_with_var"
-        ctx.count("proj_eq", key=(repr(case), "var", on_eq), nontrivial=not on_eq, label="with_var/on_eq=%s" % on_eq)
-        if md(out, modv) > 0:
-            ctx.violation("proj_eq", sitev, "model-mismatch", "with_var projection differs from the model of the (inherited) code", dict(case, on_eq=on_eq))
-        if not np.array_equal(var, v0):
-            ctx.violation("proj_eq", sitev, "mutates-argument", "argument mutated", dict(case, on_eq=on_eq))
-        if md(out, want) > 0:
-            ctx.violation("proj_eq", sitev, "gate-first-row", "equality projection on variables (on_para_eq_constraint=%s) yields first row %s instead of zeros: EffectiveLindbladian inherits Gate's projection (first row (1,0,..,0))" % (on_eq, out[:min(n, 4)]), dict(case, on_eq=on_eq))
 
 
 def sub_proj_eq(ctx):
@@ -674,9 +698,19 @@ def chk_proj_ineq(ctx, case):
         ctx.violation("proj_ineq", site, "not-nearest-psd", "certificate rejected: PSD(K'-K)=%s, |<K',K'-K>|=%.3g" % (c2, ip), case)
     if md(P.calc_h_mat(), L.calc_h_mat()) > tolf(hs):
         ctx.violation("proj_ineq", site, "hamiltonian-changed", "the projection changed the Hamiltonian part by %.3g" % md(P.calc_h_mat(), L.calc_h_mat()), case)
+    # model of the routine (theorem C18_proj_ineq_spec is about it): rebuild from calc_h_mat, calc_j_mat and the clipped K' the
+    # implementation arrived at (numpy eig is an oracle; K' itself is certificate-checked above)
+    if case["sys"] != "2q" or not ctx.quick:
+        modp = cmatv(ctx.get_model().call("c18.proj_ineq", [d], S["bq"] + rflat(hs) + cflat(K2)), n, n)
+        if md(P.hs, modp) > 100 * tolf(hs):
+            jm = cmatv(ctx.get_model().call("c18.extract", [d, 1], S["bq"] + rflat(hs)), d, d)
+            if md(L.calc_j_mat(), jm) > tolf(hs):
+                pass        # calc_j_mat itself is off: reported below / by the extract sub-check under its own signature
+            else:
+                ctx.violation("proj_ineq", site, "model-mismatch", "projected generator differs from rebuild(h, j, K') of the model by %.3g" % md(P.hs, modp), case)
     # physical generators must be left unchanged; in general H and J are kept and K is replaced by K'
     L_cb = to_cb(S, hs)
-    j_fix = jmat_fixed_np(S, L_cb); j_code = L.calc_j_mat()
+    j_np = jmat_fixed_np(S, L_cb); j_impl = L.calc_j_mat()        # model-side J of the input vs what the implementation extracts
     dK = K2 - K
     kp = 0 * L_cb
     for a in range(n - 1):
@@ -686,10 +720,10 @@ def chk_proj_ineq(ctx, case):
     err = md(P.hs, expect)
     ctx.count("proj_ineq", key=(repr(case), "keep"), nontrivial=True, label="%s/unchanged-check" % kind)
     if err > 100 * tolf(hs):
-        repaired = P.hs + from_cb(S, jpart_np(j_fix) - jpart_np(j_code)).real
+        repaired = P.hs + from_cb(S, jpart_np(j_np) - jpart_np(j_impl)).real
         what = "physical generator changed by the inequality projection" if kind in ("psd", "psd-low", "zero") else "inequality projection changes more than the dissipator matrix"
         if md(repaired, expect) <= 100 * tolf(hs):
-            ctx.violation("proj_ineq", *JSITE, "%s: hs moves by %.3g (first row becomes %.3g); it rebuilds with calc_j_mat — with the corrected calc_j_mat the result is exact" % (what, err, float(np.abs(P.hs[0]).max())), case)
+            ctx.violation("proj_ineq", *JSITE, "%s: hs moves by %.3g (first row becomes %.3g); the projection rebuilds with calc_j_mat, which returns a wrong anti-commutator matrix (defect of fix c18-calc-j-mat-identity-component is back) — with the right J the result is exact" % (what, err, float(np.abs(P.hs[0]).max())), case)
         else:
             ctx.violation("proj_ineq", site, "changes-physical" if kind != "indef" else "value", "%s by %.3g, not explained by calc_j_mat" % (what, err), case)
     # with physicality required the projection of a physical generator must not raise
@@ -698,24 +732,16 @@ def chk_proj_ineq(ctx, case):
         try:
             Ls.calc_proj_ineq_constraint()
         except ValueError as e:
+            # the constructor's verdict uses the ABSOLUTE tolerance 1e-13; the rebuilt first row carries rounding noise of relative size
+            # ~1e-15 * n, which exceeds it for large generators: such a raise is in the ambiguity band, not a defect
+            row = float(np.abs(P.hs[0]).max()); band = 3e-12 * (1.0 + float(np.abs(hs).max())) * n
+            if row <= band:
+                ctx.count("proj_ineq", key=(repr(case), "strict"), nontrivial=False, label="strict/in-band")
             # same root cause? the rebuilt generator has a non-zero first row because of calc_j_mat
-            if float(np.abs(P.hs[0]).max()) > 1e-9 and float(np.abs((P.hs + from_cb(S, jpart_np(j_fix) - jpart_np(j_code)).real)[0]).max()) < 1e-9:
+            elif float(np.abs(P.hs[0]).max()) > 1e-9 and float(np.abs((P.hs + from_cb(S, jpart_np(j_np) - jpart_np(j_impl)).real)[0]).max()) < 1e-9:
                 ctx.violation("proj_ineq", *JSITE, "calc_proj_ineq_constraint of a physical generator raises ValueError(not physically correct): the rebuilt generator is not TP because of calc_j_mat", case)
             else:
                 ctx.violation("proj_ineq", site, "unexpected-raise", "projection of a physical generator raised %s" % str(e)[:80], case)
-    # ---- variable-vector version (inherited from Gate: projects the Choi matrix of the GATE reading of hs)
-    if case.get("with_var"):
-        for on_eq in (True, False):
-            var = hs[1:].reshape(-1).copy() if on_eq else hs.reshape(-1).copy()
-            sitev = "EffectiveLindbladian.calc_proj_ineq_constraint_with_var"
-            try:
-                out = L.calc_proj_ineq_constraint_with_var(S["c_sys"], var, on_para_eq_constraint=on_eq)
-            except Exception as e:
-                ctx.violation("proj_ineq", sitev, "exception:" + type(e).__name__, str(e)[:100], dict(case, on_eq=on_eq)); continue
-            ref = P.hs[1:].reshape(-1) if on_eq else P.hs.reshape(-1)
-            ctx.count("proj_ineq", key=(repr(case), "var", on_eq), nontrivial=True, label="with_var/%s" % kind)
-            if kind in ("psd", "psd-low") and md(out, var) > 100 * tolf(hs):
-                ctx.violation("proj_ineq", sitev, "gate-choi-projection", "inequality projection on variables changes a PHYSICAL generator by %.3g: EffectiveLindbladian inherits Gate's Choi-matrix projection instead of projecting the dissipator matrix" % md(out, var), dict(case, on_eq=on_eq))
 
 
 def sub_proj_ineq(ctx):
@@ -728,68 +754,9 @@ def sub_proj_ineq(ctx):
             Kd = g_K(rng, n - 1, kind)
             if kind == "indef":
                 Kd["neg"] = [1e-3, 1e-1, 1.0, 4.0][i % 4]
-            cases.append({"sys": sysn, "scale": rng.choice([1e-2, 1.0, 1.0, 10.0]), "H": g_herm(rng, d), "K": Kd, "strict": True, "with_var": i % 2 == 1})
+            cases.append({"sys": sysn, "scale": rng.choice([1e-2, 1.0, 1.0, 10.0]), "H": g_herm(rng, d), "K": Kd, "strict": True})
     ctx.sample("proj_ineq", cases[0])
     ctx.run_cases("proj_ineq", chk_proj_ineq, cases)
-
-
-# ================================================================================================ 6. variables
-def chk_var(ctx, case):
-    from quara.objects import effective_lindbladian as el
-    S = get_sys(ctx, case["sys"]); d, n = S["d"], S["n"]
-    m = ctx.get_model()
-    if case["src"] == "hk":
-        hs, _, _ = hs_for(ctx, S, case)
-    else:
-        hs = np.array(case["R"], dtype=float).reshape(n, n) / 8.0 * case["scale"]; hs[0] = 0      # a TP (first row zero) generator
-    for on_eq in (True, False):
-        L = mk_el(S, hs, on_para_eq_constraint=on_eq)
-        var = L.to_var()
-        oe = 1 if on_eq else 0
-        ctx.count("var", key=(repr(case), on_eq), nontrivial=True, label="%s/on_eq=%s" % (case["sys"], on_eq))
-        modv = np.array([float(x) for x in m.call("c18.eqvar", [n, 1, oe], rflat(hs))])
-        if md(var, modv) > 0 or md(el.convert_effective_lindbladian_to_var(S["c_sys"], hs, on_eq), modv) > 0:
-            ctx.violation("var", "effective_lindbladian.convert_effective_lindbladian_to_var", "model-mismatch", "to_var differs from the model", dict(case, on_eq=on_eq))
-        L2 = el.convert_var_to_effective_lindbladian(S["c_sys"], var, is_physicality_required=False, on_para_eq_constraint=on_eq)
-        mod_code = rmatv(m.call("c18.eqvar", [n, 2, oe], rflat(var)), n, n)
-        mod_fix = rmatv(m.call("c18.eqvar", [n, 3, oe], rflat(var)), n, n)
-        site = "effective_lindbladian.convert_var_to_effective_lindbladian"
-        if md(L2.hs, mod_code) > 0:
-            ctx.violation("var", site, "model-mismatch", "from-var differs from the model of the code", dict(case, on_eq=on_eq))
-        if md(mod_fix, hs) > 0:
-            ctx.violation("var", "model.from_var_fix", "oracle-mismatch", "corrected model round trip is not the identity", dict(case, on_eq=on_eq))
-        if md(L2.hs, hs) > 0:
-            ctx.violation("var", site, "inserts-gate-first-row", "to_var -> convert_var_to_effective_lindbladian is not the identity on a TP generator (on_para_eq_constraint=%s): first row comes back as %s (the gate's (1,0,..,0)), the zero row is expected" % (on_eq, L2.hs[0][:4]), dict(case, on_eq=on_eq))
-        # the public method every estimator uses
-        try:
-            L3 = L.generate_from_var(var, is_physicality_required=False)
-            if md(L3.hs, hs) > 0 and md(L3.hs, L2.hs) > 0:
-                ctx.violation("var", "EffectiveLindbladian.generate_from_var", "value", "generate_from_var differs from convert_var_to_effective_lindbladian", dict(case, on_eq=on_eq))
-        except TypeError as e:
-            ctx.violation("var", "EffectiveLindbladian.generate_from_var", "TypeError-mode_proj_order", "generate_from_var raises TypeError (%s): convert_var_to_effective_lindbladian does not accept the mode_proj_order argument QOperation.generate_from_var passes" % str(e)[:90], dict(case, on_eq=on_eq))
-        # gradient = unit matrix at the converted index (wrappers around the gate index maps)
-        nv = len(var)
-        for vi in sorted(set([0, nv // 2, nv - 1])):
-            G = L.calc_gradient(vi)
-            r, c = el.convert_var_index_to_effective_lindbladian_index(S["c_sys"], vi, on_eq)
-            E = np.zeros((n, n)); E[r, c] = 1
-            back = el.convert_effective_lindbladian_index_to_var_index(S["c_sys"], (r, c), on_eq)
-            if md(G.hs, E) > 0 or back != vi or abs(float(np.sum(E * hs)) - float(var[vi])) > 0:
-                ctx.violation("var", "EffectiveLindbladian.calc_gradient", "value", "gradient / index maps inconsistent with to_var at var index %d" % vi, dict(case, on_eq=on_eq))
-
-
-def sub_var(ctx):
-    rng = ctx.rng
-    cases = []
-    for sysn, cnt in [("1q", ctx.n(6, 40)), ("qutrit", ctx.n(3, 20)), ("2q", ctx.n(2, 10))]:
-        S = get_sys(ctx, sysn); d, n = S["d"], S["n"]
-        for i in range(cnt):
-            if i % 2 == 0:
-                cases.append({"sys": sysn, "src": "hk", "scale": scale_of(rng), "H": g_herm(rng, d), "K": g_K(rng, n - 1, "psd")})
-            else:
-                cases.append({"sys": sysn, "src": "real", "scale": scale_of(rng), "R": [rng.randint(-8, 8) for _ in range(n * n)]})
-    ctx.sample("var", cases[0])
-    ctx.run_cases("var", chk_var, cases)
 
 
 # ================================================================================================ 7. to_gate
@@ -985,9 +952,9 @@ def sub_typical(ctx):
 
 
 SUBS = [("gen", sub_gen), ("extract", sub_extract), ("jump", sub_jump), ("verdict", sub_verdict), ("proj_eq", sub_proj_eq),
-        ("proj_ineq", sub_proj_ineq), ("var", sub_var), ("to_gate", sub_to_gate), ("tables", sub_tables), ("typical", sub_typical)]
+        ("proj_ineq", sub_proj_ineq), ("to_gate", sub_to_gate), ("tables", sub_tables), ("typical", sub_typical)]
 FNS = {"gen": chk_gen, "extract": chk_extract, "jump": chk_jump, "verdict": chk_verdict, "proj_eq": chk_proj_eq, "proj_ineq": chk_proj_ineq,
-       "var": chk_var, "to_gate": chk_to_gate, "tables": chk_tables, "typical": chk_typical, "random_setting": chk_random_setting}
+       "to_gate": chk_to_gate, "tables": chk_tables, "typical": chk_typical, "random_setting": chk_random_setting}
 
 
 def run(ctx):
@@ -1003,7 +970,18 @@ def run(ctx):
         def g(c):
             t0 = time.time(); fn(c); c.note("sub-check %s: %.1f s" % (name, time.time() - t0))
         return g
+    if not getattr(ctx, "_c18_wrapped", False):         # per-system wall time of the case functions (diagnostic note only)
+        ctx._c18_wrapped = True
+        orig = ctx.run_cases
+
+        def run_cases(sub, fn, cases):
+            for case in cases:
+                t0 = time.time(); orig(sub, fn, [case])
+                key = "%s/%s" % (sub, case.get("sys", "-") if isinstance(case, dict) else "-")
+                _TIMES[key] = _TIMES.get(key, 0.0) + time.time() - t0
+        ctx.run_cases = run_cases
     flow.standard_run(ctx, [(nm, timed(nm, fn)) for nm, fn in SUBS])
+    ctx.note("case time by sub-check/system: " + ", ".join("%s %.1fs" % (k, v) for k, v in sorted(_TIMES.items()) if v >= 0.5))
 
 
 def replay(ctx, doc):
